@@ -638,28 +638,22 @@ class DiskFile(VirtualFileContainer):
         if not allocated_granules:
             return
 
-        granule = allocated_granules[0]
-        allocated_granules = allocated_granules[1:]
-        pointer = self.seek_granule(granule)
-        skip_bytes = 0
-
+        # The stored stream is preamble, data, postamble. It is cut into granule sized pieces that go to the
+        # granules of the chain in order, so a postamble that does not fit behind the data in the last data
+        # granule continues in the next granule of the chain, wherever that granule lies on the disk
+        stream = []
         if first_granule and preamble:
-            pointer = preamble.write(self.buffer, pointer)
-            skip_bytes += preamble.length
+            stream = [0x00] * preamble.length
+            preamble.write(stream, 0)
+        stream.extend(file_data)
+        if postamble:
+            tail = [0x00] * postamble.length
+            postamble.write(tail, 0)
+            stream.extend(tail)
 
-        if len(file_data) < (DiskConstants.HALF_TRACK_LEN - skip_bytes):
-            pointer = self.write_bytes_to_buffer(pointer, file_data)
-            if postamble:
-                postamble.write(self.buffer, pointer)
-        else:
-            self.write_bytes_to_buffer(pointer, file_data[:DiskConstants.HALF_TRACK_LEN - skip_bytes])
-            self.write_to_granules(
-                file_data[DiskConstants.HALF_TRACK_LEN - skip_bytes:],
-                allocated_granules,
-                None,
-                postamble,
-                first_granule=False
-            )
+        for index, granule in enumerate(allocated_granules):
+            start = index * DiskConstants.HALF_TRACK_LEN
+            self.write_bytes_to_buffer(self.seek_granule(granule), stream[start:start + DiskConstants.HALF_TRACK_LEN])
 
     def add_file(self, coco_file):
         """
